@@ -109,3 +109,72 @@ func TestRoundTripAndRegenerate(t *testing.T) {
 		}
 	}
 }
+
+type chunky struct {
+	r io.Reader
+	n int
+}
+
+func (c chunky) Read(p []byte) (int, error) {
+	if len(p) > c.n {
+		p = p[:c.n]
+	}
+	return c.r.Read(p)
+}
+
+func TestStreaming(t *testing.T) {
+	id := func(wfk []byte, kw int, name string) ([]byte, error) { return wfk, nil }
+	for _, n := range []int{0, 1, 65535, 65536, 65537, 131072, 200000} {
+		for _, c := range []int{CipherAESGCM, CipherChaCha} {
+			pt := bytes.Repeat([]byte{byte(n), 7, 9, byte(c)}, n/4+1)[:n]
+			fk := bytes.Repeat([]byte{9}, 32)
+			np := []byte{1, 2, 3, 4, 5, 6, 7}
+			o := EncryptOptions{KeyName: "k", KW: KWA256KW, Cipher: c, FileKey: fk, NoncePrefix: np, Wrap: func(k []byte) ([]byte, error) { return k, nil }}
+			whole, _ := Encrypt(pt, o)
+			streamed, err := io.ReadAll(chunky{NewEncryptReader(chunky{bytes.NewReader(pt), 1000}, o), 777})
+			if err != nil || !bytes.Equal(whole, streamed) {
+				t.Fatalf("n=%d: streaming encryption differs from whole-document encryption (%v)", n, err)
+			}
+			dr, err := NewDecryptReader(chunky{bytes.NewReader(whole), 3333}, id)
+			if err != nil {
+				t.Fatal(err)
+			}
+			got, err := io.ReadAll(chunky{dr, 555})
+			if err != nil || !bytes.Equal(got, pt) {
+				t.Fatalf("n=%d: streaming decryption: %v", n, err)
+			}
+			if n > 0 {
+				bad := append([]byte{}, whole...)
+				bad[len(bad)-1] ^= 1
+				dr, _ = NewDecryptReader(bytes.NewReader(bad), id)
+				if _, err := io.ReadAll(dr); err == nil {
+					t.Fatal("tampered document accepted by the streaming reader")
+				}
+				if n > 65536 { // truncation at a segment boundary
+					dr, _ = NewDecryptReader(bytes.NewReader(whole[:dr.HeaderLen()+65552]), id)
+					if _, err := io.ReadAll(dr); err == nil {
+						t.Fatal("document truncated at a segment boundary accepted")
+					}
+				}
+			}
+		}
+	}
+	// the published test vectors through the streaming reader
+	for _, name := range []string{"large-file.enc", "two-full-segments.enc", "empty-message.enc"} {
+		f, err := os.Open(filepath.Join(repoDir(), "schemes/enc/v1/testdata", name))
+		if err != nil {
+			t.Fatal(err)
+		}
+		dr, err := NewDecryptReader(f, id)
+		if err != nil {
+			t.Fatal(err)
+		}
+		if _, err := io.Copy(io.Discard, dr); err != nil {
+			t.Fatalf("%s: %v", name, err)
+		}
+		f.Close()
+	}
+	if n := segmentNonce64([]byte{1, 2, 3, 4, 5, 6, 7}, 0x01020304, true); !bytes.Equal(n, []byte{1, 2, 3, 4, 5, 6, 7, 1, 2, 3, 4, 1}) {
+		t.Fatalf("nonce %x", n)
+	}
+}
